@@ -144,6 +144,44 @@ pub const PRIVATE_IDS: &[i64] = &[
 ];
 pub const TIMESTAMPS_WHOLE: &[i64] = &[0, 1, -1, 1_600_000_000, i64::MAX, i64::MIN];
 pub const TIMESTAMPS_FRAC: &[f64] = &[0.5, 1.6e9, -1.25, 1e300];
+/// Doubles worth meeting, as bit patterns: zeros, values at the edges of the three CBOR float
+/// widths, integral values, infinities and NaNs of every flavour (sign, payload, signalling).
+pub fn float_bits(rng: &mut Rng) -> u64 {
+    const F: &[u64] = &[
+        0x0000_0000_0000_0000, // 0.0
+        0x8000_0000_0000_0000, // -0.0
+        0x3ff8_0000_0000_0000, // 1.5
+        0xc002_0000_0000_0000, // -2.25
+        0x3ff0_0000_0000_0000, // 1.0
+        0xc008_0000_0000_0000, // -3.0
+        0x41d9_5560_3000_0000, // 1.7e9 (a date)
+        0x4340_0000_0000_0000, // 2^53
+        0x43e0_0000_0000_0000, // 2^63
+        0xc3e0_0000_0000_0000, // -2^63
+        0x3fb9_9999_9999_999a, // 0.1
+        0x3fb9_9999_a000_0000, // 0.1f32
+        0x40ef_fc00_0000_0000, // 65504 (largest half)
+        0x40ef_fc20_0000_0000, // 65505
+        0x3e70_0000_0000_0000, // 2^-24 (smallest half subnormal)
+        0x3e60_0000_0000_0000, // 2^-25
+        0x0000_0000_0000_0001, // smallest double subnormal
+        0x7e37_e43c_8800_759c, // 1e300
+        0x7ff0_0000_0000_0000, // inf
+        0xfff0_0000_0000_0000, // -inf
+        0x7ff8_0000_0000_0000, // NaN
+        0xfff8_0000_0000_0000, // -NaN (x86 0.0/0.0)
+        0x7ff8_0000_0000_0001, // NaN with a low payload bit
+        0x7ffc_0000_0000_0000, // NaN with a high payload bit
+        0x7ff4_0000_0000_0000, // signalling NaN
+        0xfff0_0000_0000_0001, // negative signalling NaN, low payload
+    ];
+    if rng.chance(1, 8) {
+        rng.next_u64()
+    } else {
+        *rng.pick(F)
+    }
+}
+
 pub const NONCE_INTS: &[i64] = &[0, 1, -1, 24, i64::MAX, i64::MIN];
 pub const KEY_DATA_LENGTHS: &[u64] = &[0, 1, 128, 256, 65536, u64::MAX];
 
@@ -172,6 +210,16 @@ pub fn value_palette() -> &'static Vec<MValue> {
                 MValue::Text("k".into()),
                 MValue::Array(vec![MValue::Null]),
             )])]),
+            // (appended later: indices above are referenced by stored traces)
+            MValue::Float(0xfff8_0000_0000_0000),
+            MValue::Float(0x7ff8_0000_0000_0001),
+            MValue::Float(0x7ff0_0000_0000_0000),
+            MValue::Float(0x8000_0000_0000_0000),
+            MValue::Float(0x41d9_5560_3000_0000),
+            MValue::Array(vec![
+                MValue::Float(0x7ff4_0000_0000_0000),
+                MValue::Float(0x3fb9_9999_9999_999a),
+            ]),
         ]
     })
 }
